@@ -23,6 +23,7 @@ import struct
 from vf.runner import use_repo, ToolError
 from vf.refproto import position as refpos
 from vf.refproto.codec import varnum
+from vf import explore, interleave
 
 LEVEL = 'exploration'
 RULE = ('Position: for each known protocol version (iterated from '
@@ -47,7 +48,20 @@ RULE = ('Position: for each known protocol version (iterated from '
         'around 741/748, first and last (thorough: also every other version '
         'with 2 ids).  Cases are distinct by construction; a case is '
         'non-trivial unless all its coordinates / its word / its record '
-        'fields are zero.')
+        'fields are zero.  Histories: the probe through one long-lived context '
+        'per version used alternately oldest/newest, and through one context '
+        're-assigned in place across all versions, must show the layout a '
+        'fresh context shows; one packet object written (write_packet '
+        'force) to a connection at {oldest, 404, 477, newest} and then to '
+        'a connection at every known version must put on the second wire '
+        'what a fresh packet does.  Concurrency: a thread assigning '
+        'context.protocol_version races a thread encoding / decoding a '
+        'position with that context (used before or not), version changes (757,404), (404,757), '
+        '(443,441), (441,443), (47,757), every source line of types/basic, '
+        'types/utility, minecraft/utility and ConnectionContext a '
+        'scheduling point, all schedules with <= 2 (thorough 3) '
+        'preemptions: the racing call shows one of the two layouts and '
+        'afterwards the context shows the new version and its layout.')
 ASSUMPTIONS = ['publication rank is taken from minecraft.PROTOCOL_VERSION_'
                'INDICES of the tree under test (checked to be a bijection on '
                'KNOWN_PROTOCOL_VERSIONS containing 404, 443, 477, 741, 748)',
@@ -239,10 +253,11 @@ def words(layouts, seedwords):
 
 # -- Position ------------------------------------------------------------------
 
-def probe(E, v):
+def probe(E, v, cx=None):
     """Observed (encode layout, decode layout) of version v; each 'A', 'B' or
     a description of what else happened."""
-    cx = E.Context(protocol_version=v)
+    if cx is None:
+        cx = E.Context(protocol_version=v)
     wa, wb = word_bytes(refpos.pos_xyz(*PROBE)), \
         word_bytes(refpos.pos_xzy(*PROBE))
     try:
@@ -755,7 +770,197 @@ def w_any(ctx, task):
      'pkt': w_packet}[task[0]](ctx, task)
 
 
+# -- histories of contexts and packets; concurrent use ---------------------------
+# "the packing of the connection's protocol": of the protocol the context has
+# NOW, whatever it was before, whatever other contexts exist, and whichever
+# connection a packet object went through before.
+
+def check_context_histories(ctx, E, observed):
+    zig = [w for pair in zip(E.by_rank, E.by_rank[::-1]) for w in pair]
+    live = dict((v, E.Context(protocol_version=v)) for v in E.known)
+    moving = E.Context(protocol_version=E.by_rank[0])
+    n = 0
+    for label in ('one long-lived context per version, used alternately',
+                  'one context whose version is re-assigned in place'):
+        for v in zig:
+            if label.startswith('one context'):
+                moving.protocol_version = v
+                cx = moving
+            else:
+                cx = live[v]
+            ctx.count()
+            n += 1
+            enc, dec = probe(E, v, cx)
+            if (enc, dec) != (observed[v], observed[v]):
+                ctx.violation(
+                    'context-history v=%d' % v,
+                    'protocol %d, %s: the probe encodes with layout %s and '
+                    'decodes with %s; with a fresh context it is %s'
+                    % (v, label, enc, dec, observed[v]),
+                    {'op': 'context-history', 'version': v})
+    ctx.cls('context histories (alternating / re-assigned in place)', n)
+
+
+class _Wire(object):
+    def __init__(self):
+        self.data = b''
+
+    def send(self, data):
+        self.data += bytes(data)
+
+
+def _placement(E):
+    from minecraft.networking.packets import serverbound
+    from minecraft.networking.types import RelativeHand, BlockFace
+    p = serverbound.play.PlayerBlockPlacementPacket()
+    p.location = E.Position(*PROBE)
+    p.face = BlockFace.TOP
+    p.hand = RelativeHand.MAIN
+    p.x, p.y, p.z = 0.5, 1.0, 0.5
+    p.inside_block = False
+    return p
+
+
+def _conn(E, v):
+    from minecraft.networking.connection import Connection
+    c = Connection('localhost', 25565, username='u')
+    c.context.protocol_version = v
+    c.socket = _Wire()
+    return c
+
+
+def packet_reuse_err(E, first, second):
+    """The same packet object written to a connection at `first`, then to
+    one at `second`: the second wire must carry what a fresh packet gives."""
+    try:
+        fresh = _conn(E, second)
+        fresh.write_packet(_placement(E), force=True)
+        want = fresh.socket.data
+    except Exception:
+        return None                 # nothing to compare with at this version
+    pkt = _placement(E)
+    c1, c2 = _conn(E, first), _conn(E, second)
+    try:
+        c1.write_packet(pkt, force=True)
+    except Exception:
+        return None
+    try:
+        c2.write_packet(pkt, force=True)
+    except Exception as e:
+        return 'the second write raised ' + exc(e)
+    if c2.socket.data != want:
+        return ('a block placement at %r written to a protocol-%d '
+                'connection and then to a protocol-%d connection put %s on '
+                'the second wire; a fresh packet gives %s'
+                % (PROBE, first, second, c2.socket.data.hex(), want.hex()))
+    return None
+
+
+def check_packet_reuse(ctx, E):
+    n = 0
+    for first in (E.by_rank[0], 404, 477, E.by_rank[-1]):
+        for second in E.by_rank:
+            ctx.count()
+            n += 1
+            err = packet_reuse_err(E, first, second)
+            if err:
+                ctx.violation('packet-reuse %d->%d' % (first, second), err,
+                              {'op': 'packet-reuse', 'first': first,
+                               'second': second})
+    ctx.cls('one packet object written to two connections', n)
+
+
+RACE_MODULES = ('minecraft.networking.types.basic',
+                'minecraft.networking.types.utility',
+                'minecraft.utility',
+                'minecraft.networking.connection:ConnectionContext')
+RACE_PAIRS = ((757, 404), (404, 757), (443, 441), (441, 443), (47, 757))
+
+
+def race_body(W, params):
+    E = env()
+    v, w = params['from'], params['to']
+    wa, wb = word_bytes(refpos.pos_xyz(*PROBE)), \
+        word_bytes(refpos.pos_xzy(*PROBE))
+    want_v, want_w = probe(E, v), probe(E, w)
+    cx = E.Context(protocol_version=v)
+    if params.get('warm'):
+        probe(E, v, cx)             # the context has been in use
+
+    def assign():
+        cx.protocol_version = w
+
+    def encode():
+        buf = E.PacketBuffer()
+        E.Position.send_with_context(PROBE, buf, cx)
+        got = buf.get_writable()
+        return 'A' if got == wa else 'B' if got == wb else got.hex()
+
+    def decode():
+        buf = E.PacketBuffer()
+        buf.send(wa)
+        buf.reset_cursor()
+        p = E.Position.read_with_context(buf, cx)
+        return 'A' if same_ints(p, PROBE) else 'B'
+
+    ops = {'encode': encode, 'decode': decode}
+    got = interleave.race(W, [assign, ops[params['op']]])
+    viol = []
+    i = 0 if params['op'] == 'encode' else 1
+    if got[0] != ('ok', None):
+        viol.append(('assignment raised', 'assigning protocol_version '
+                     'raised %r' % (got[0],)))
+    if got[1][0] != 'ok' or got[1][1] not in (want_v[i], want_w[i]):
+        viol.append(('concurrent %s' % params['op'],
+                     '%s of a position while the context moves from %d to '
+                     '%d gave %r; layouts of the two versions: %s, %s'
+                     % (params['op'], v, w, got[1], want_v[i], want_w[i])))
+    after = probe(E, w, cx)
+    if after != want_w or cx.protocol_version != w:
+        viol.append(('stale layout after version change',
+                     'the context moved from %d to %d while another thread '
+                     'was in %s: afterwards protocol_version is %r, the '
+                     'probe encodes with %s and decodes with %s; a fresh '
+                     'context at %d gives %s/%s'
+                     % (v, w, params['op'], cx.protocol_version, after[0],
+                        after[1], w, want_w[0], want_w[1])))
+    return {'outcome': (got[1], after), 'violations': viol}
+
+
+def race_factory(params):
+    def scenario(prefix, expect, visited=None, budget=0):
+        return interleave.run(lambda W: race_body(W, params), prefix, expect,
+                              budget, modules=RACE_MODULES)
+    return scenario
+
+
+def run_races(ctx, ex):
+    bound = 3 if ctx.thorough else 2
+    execs = 0
+    for v, w in RACE_PAIRS:
+        for op, warm in (('encode', False), ('encode', True),
+                         ('decode', False), ('decode', True)):
+            res = ex.explore(ctx, race_factory,
+                             {'from': v, 'to': w, 'op': op, 'warm': warm},
+                             bound, label='race ')
+            execs += res.execs
+            ctx.cls('version change racing a position codec call')
+    ctx.extra['concurrent'] = {
+        'version_changes': [list(p) for p in RACE_PAIRS],
+        'preemption_bound': bound, 'schedules_executed': execs,
+        'points': 'every source line of ' + ', '.join(RACE_MODULES)}
+
+
 def run(ctx):
+    use_repo()
+    ex = explore.Explorer(memo=False)   # forks its workers before anything runs
+    try:
+        _run(ctx, ex)
+    finally:
+        ex.close()
+
+
+def _run(ctx, ex):
     E = env()
     A = alphabets(ctx.seed)
     # 1. observed layouts, required layouts, single switch-over
@@ -766,6 +971,10 @@ def run(ctx):
         ctx.outcome('probe encode=%s decode=%s' % (enc[:7], dec[:7]))
     ctx.note_distinct(len(E.known))
     first_b = check_monotone(ctx, E, observed)
+    if not ctx.violations:
+        check_context_histories(ctx, E, observed)
+        check_packet_reuse(ctx, E)
+        run_races(ctx, ex)
     n_a = sum(1 for v in E.known if observed[v] == 'A')
     n_b = sum(1 for v in E.known if observed[v] == 'B')
     ctx.cls('versions observed with layout A', n_a)
@@ -832,7 +1041,7 @@ def run(ctx):
 
 def replay(ctx, case):
     E = env()
-    op = case['op']
+    op = case.get('op')
     ctx.count()
     if op == 'monotone':
         observed = dict((v, probe(E, v)[0]) for v in E.known)
@@ -848,6 +1057,26 @@ def replay(ctx, case):
             key = 'sec-decode %s' % case['word']
         if err:
             ctx.violation(key, err, case)
+        return
+    if 'choices' in case:
+        x = race_factory(case['params'])(list(case['choices']), None, None,
+                                         'replay')
+        res = x.result or {}
+        viol = list(res.get('violations', ()))
+        if x.failure is not None:
+            viol.append((x.failure[0], '%s: %s' % x.failure))
+        for key, what in viol:
+            ctx.violation('race %s' % key, what, case)
+        return
+    if op == 'packet-reuse':
+        err = packet_reuse_err(E, case['first'], case['second'])
+        if err:
+            ctx.violation('packet-reuse %d->%d' % (case['first'],
+                                                   case['second']), err, case)
+        return
+    if op == 'context-history':
+        observed = dict((v, probe(E, v)[0]) for v in E.known)
+        check_context_histories(ctx, E, observed)
         return
     v = case['version']
     if v not in E.rank:
